@@ -355,6 +355,8 @@ def run_case(case, keep_log=False):
     try:
         seams = []
         bug = faults.Buggify(f["buggify"]) if f.get("buggify") else None
+        if bug is None and case.get("check_psi"):
+            bug = faults.Buggify({"arm": {}})  # passive: counts natural method failures
         clk = faults.ClockSim(f["clock"]) if f.get("clock") else None
         if bug is not None:
             seams.append(bug.installed())
@@ -427,7 +429,10 @@ def run_case(case, keep_log=False):
                 problems = validity.check_grid(g, tokamak=tok, geqdsk=(entry == "geqdsk"),
                                                n_targets=ntg)
                 if case.get("check_psi") and not problems and cap.mesh is not None:
-                    psi_resid = opsi(g, cap.mesh)
+                    bc = bug.counters() if bug is not None else {}
+                    newton_gave_way = bool(bc.get("fired", {}).get("newton")) or \
+                        bool(bc.get("natural_fail", {}).get("newton"))
+                    psi_resid = opsi(g, cap.mesh, newton_gave_way=newton_gave_way)
         cap.mesh = None
         violation = classify(case, res, problems, counters)
         if violation is None and psi_resid is not None and psi_resid["violations"]:
@@ -567,7 +572,7 @@ class MeshCapture:
             BoutMesh.writeGridfile = real
 
 
-def opsi(g, mesh, methods=None):
+def opsi(g, mesh, methods=None, newton_gave_way=True):
     """C01 oracle: every point of the written grid lies on the flux surface of its radial
     index: psi (the mesh's own interpolant) at the positions read back from the grid file
     equals the region's radial psi-grid value and psixy, to within the point-refinement
@@ -577,9 +582,14 @@ def opsi(g, mesh, methods=None):
     methods = methods or mesh.user_options.refine_methods
     if isinstance(methods, str):
         methods = [methods]
+    # Newton's convergence test is |psi - psival| < atol (absolute) with an early exit that
+    # is relative, hence 10*atol*max(1,|psi|).  Bare "integrate" is documented as "does not
+    # respect atol": when it produced points (Newton gave way, or no Newton/line-search
+    # method is configured) the bound is 100 times wider.
     factor = 10.0
-    if "integrate" in methods or "line" in methods:
-        factor = 1000.0  # documented: integrate "does not respect atol"
+    newton_like = [m for m in methods if m in ("newton", "integrate+newton", "line")]
+    if not newton_like or (newton_gave_way and "integrate" in methods):
+        factor = 1000.0
     out = {"max_resid": 0.0, "violations": [], "tau_factor": factor, "points": 0,
            "max_resid_vs_psixy": 0.0, "pinned_corners": 0}
     locs = (
